@@ -107,6 +107,9 @@ def prefix_reward(cfg, p, t, visits=None):
         if visits is not None:
             visits[key] = k + 1
         return (1.0, 0.0, 1.0, 0.0)[k] if k < 4 else 0.5
+    if spec.get("pattern") == "rising":
+        # every evaluation beats all earlier ones: optimistic searches descend one path (deep trees after few rounds)
+        return t * 8.0 - (1000.0 if spec.get("negative") else 0.0)
     lo, hi = PREFIX_BOX
     u = (x - lo) / (hi - lo)
     peak = spec.get("peak", 0.3)
